@@ -717,17 +717,31 @@ def _paths(job, ctx):
         ("relative-not-in-startdir", incdir, "cwd.inc", "raise"), ("missing-cwd", None, "ok.inc", "raise"),
         ("wrong-type-int", incdir, 5, "raise"), ("wrong-type-list", incdir, ["ok.inc"], "raise"),
         ("empty-path", incdir, "", "raise"), ("empty-path-no-startdir", None, "", "raise"),
+        # the include field's own normalisation decides which name is opened: the file merged is the one the field holds afterwards
+        ("strip-absolute", None, "  " + os.path.join(incdir, "ok.inc") + " ", 5, {"transform_strip": True}),
+        ("strip-absolute-startdir", incdir, " " + os.path.join(incdir, "site", "x.inc") + "  ", 9, {"transform_strip": True}),
+        ("strip-trailing-absolute", None, os.path.join(incdir, "ok.inc") + "  ", 5, {"transform_strip": True}),
+        ("strip-trailing-chars-absolute", incdir, os.path.join(incdir, "ok.inc") + "@@", 5, {"transform_strip": "@"}),
+        ("strip-relative-startdir", incdir, " ok.inc ", 5, {"transform_strip": True}),
+        ("strip-chars-absolute", None, "@" + os.path.join(incdir, "ok.inc") + "@", 5, {"transform_strip": "@"}),
+        ("validator-redirect-absolute", None, os.path.join(incdir, "ok.inc"), 9, {"validator": "redirect"}),
+        ("validator-redirect-relative", incdir, "ok.inc", 9, {"validator": "redirect"}),
     ]
+    redirect_to = os.path.join(incdir, "site", "x.inc")
     os.chdir(other)
     for where in ("root", "nested"):
-        for name, sd, path, expect in forms:
+        for form in forms:
+            name, sd, path, expect = form[:4]
+            fopts = dict(form[4]) if len(form) > 4 else {}
+            if fopts.get("validator") == "redirect":
+                fopts["validator"] = lambda cfg, value: redirect_to
             if only is not None and only != [where, name]:
                 continue
             s = cc.Schema()
             s.x = cc.IntField(default=1)
             s.early.q = cc.IntField()       # a sibling section declared first and absent from the document
             s.sub.x = cc.IntField(default=1)
-            kw = {"startdir": sd} if sd else {}
+            kw = dict({"startdir": sd} if sd else {}, **fopts)
             if where == "root":
                 s.include = cc.IncludeField(**kw)
                 main = {"x": 2, "include": path}
